@@ -112,8 +112,58 @@ Proof.
   destruct (z =? -1); [now apply neg_pair|]. destruct (z =? 0); [reflexivity|now apply set_pair].
 Qed.
 
-Definition not_sqrt (p : bpair) : Prop := match p with BSqrtP => False | _ => True end.
-Definition not_abs_sqrt (p : bpair) : Prop := match p with BAbsP | BSqrtP => False | _ => True end.
+(* what store leaves in a receiver of type t is a value of type t (float32: rounding is idempotent on the carrier) *)
+Definition r32_idem : Prop := forall x, cr32 C (cr32 C x) = cr32 C x.
+Lemma store_wt t x v : bare t -> r32_idem -> store C (base_of t) x = Val v -> wt C t v.
+Proof.
+  intros Hb Hi H. unfold store, f2i in H. unfold wt.
+  destruct (base_of t) eqn:E; try (inversion H; subst; auto; fail);
+    destruct (ctoZ C x) as [z|]; cbn in H; try discriminate;
+    destruct (inrange _ z) eqn:R; cbn in H; try discriminate; inversion H; subst; exact R.
+Qed.
+Lemma un_wt t f a v : bare t -> r32_idem -> un C t f a = Val v -> wt C t v.
+Proof. intros Hb Hi H. eapply store_wt; eauto. Qed.
+
+Lemma logadd_pair t a b : bare t -> r32_idem -> wt C t a -> wt C t b -> LOGADD C t a b = logadd C t t (t, a) (t, b).
+Proof.
+  intros Hb Hi Ha Hbw. unfold LOGADD, logadd. cbn [fst snd].
+  rewrite cmp_pair by assumption.
+  destruct (cmp C t RGt a b) as [g| | |]; cbn [bind]; try reflexivity.
+  destruct g; cbn [fst snd].
+  - destruct (cisinf C (getf64 C b) 0); [now apply set_pair|].
+    rewrite arith_pair by assumption.
+    destruct (arith C t OSub b a) as [t1| | |]; cbn [bind]; try reflexivity.
+    change (UN C t FExp t1) with (un C t FExp t1).
+    destruct (un C t FExp t1) as [t2| | |]; cbn [bind]; try reflexivity.
+    change (UN C t FLog1p t2) with (un C t FLog1p t2).
+    destruct (un C t FLog1p t2) as [t3| | |] eqn:E3; cbn [bind]; try reflexivity.
+    apply arith_pair; auto. eapply un_wt; eauto.
+  - destruct (cisinf C (getf64 C a) 0); [now apply set_pair|].
+    rewrite arith_pair by assumption.
+    destruct (arith C t OSub a b) as [t1| | |]; cbn [bind]; try reflexivity.
+    change (UN C t FExp t1) with (un C t FExp t1).
+    destruct (un C t FExp t1) as [t2| | |]; cbn [bind]; try reflexivity.
+    change (UN C t FLog1p t2) with (un C t FLog1p t2).
+    destruct (un C t FLog1p t2) as [t3| | |] eqn:E3; cbn [bind]; try reflexivity.
+    apply arith_pair; auto. eapply un_wt; eauto.
+Qed.
+Lemma logsub_pair t a b : bare t -> r32_idem -> wt C t a -> wt C t b -> LOGSUB C t a b = logsub C t t (t, a) (t, b).
+Proof.
+  intros Hb Hi Ha Hbw. unfold LOGSUB, logsub. cbn [fst snd].
+  destruct (cisinf C (getf64 C b) (-1)); [now apply set_pair|].
+  rewrite arith_pair by assumption.
+  destruct (arith C t OSub b a) as [t1| | |]; cbn [bind]; try reflexivity.
+  change (UN C t FExp t1) with (un C t FExp t1).
+  destruct (un C t FExp t1) as [t2| | |] eqn:E2; cbn [bind]; try reflexivity.
+  rewrite neg_pair by (auto; eapply un_wt; eauto).
+  destruct (neg C t t2) as [t3| | |]; cbn [bind]; try reflexivity.
+  change (UN C t FLog1p t3) with (un C t FLog1p t3).
+  destruct (un C t FLog1p t3) as [t4| | |] eqn:E4; cbn [bind]; try reflexivity.
+  apply arith_pair; auto. eapply un_wt; eauto.
+Qed.
+
+Definition not_sqrt (p : bpair) : Prop := match p with BSqrtP | BLogAddP | BLogSubP => False | _ => True end.
+Definition not_abs_sqrt (p : bpair) : Prop := match p with BAbsP | BSqrtP | BLogAddP | BLogSubP => False | _ => True end.
 
 Lemma bare_pairs_agree p t cold a b :
   bare t -> wt C t a -> wt C t b -> not_abs_sqrt p -> b_concrete C p t cold a b = b_generic C p t cold a b.
@@ -128,6 +178,12 @@ Lemma bare_pairs_agree_but_sqrt p t cold a b :
 Proof.
   intros Hb Ha Hbw Hp. destruct p; try (apply bare_pairs_agree; assumption || exact I); try contradiction.
   cbn [b_concrete b_generic]. now apply abs_pair.
+Qed.
+Lemma bare_logadd_logsub_agree p t cold a b :
+  bare t -> r32_idem -> wt C t a -> wt C t b -> (p = BLogAddP \/ p = BLogSubP) ->
+  b_concrete C p t cold a b = b_generic C p t cold a b.
+Proof.
+  intros Hb Hi Ha Hbw [->| ->]; cbn [b_concrete b_generic]; [now apply logadd_pair|now apply logsub_pair].
 Qed.
 
 Lemma bare_sqrt_agree t cold a b :
